@@ -10,7 +10,8 @@ package PVM
 //                                              blobs, invoke buffers: the guest's own stores),
 //                  "gas":n                     optional: outer gas set before the call}, ..]}
 // All calls of a case act on ONE RefineArgs (machine map) and one outer memory, as one refine invocation does.
-// One trace record per call: the complete projected state before and after it.
+// One trace record per call: the complete projected state before and after it; when the guest stored bytes
+// before the call (`set`), also the state before those stores (`pre0`).
 
 import (
 	"sort"
@@ -175,6 +176,11 @@ func vfrRunCase(c map[string]any, defs map[string]map[string]any, out *vfd.Out) 
 	add := HostCallArgs{RefineArgs: RefineArgs{IntegratedPVMMap: IntegratedPVMMap{}}, Program: vfrOuterProgram()}
 	for seq, oj := range c["ops"].([]any) {
 		op := oj.(map[string]any)
+		var pre0 *vfrState // the state before the guest's own stores, recorded when there are any
+		if sets, ok := op["set"].([]any); ok && len(sets) > 0 {
+			st0 := vfrSnap(&regs, gas, outer, add.IntegratedPVMMap)
+			pre0 = &st0
+		}
 		if sets, ok := op["set"].([]any); ok {
 			for _, sj := range sets {
 				s := sj.([]any)
@@ -207,7 +213,11 @@ func vfrRunCase(c map[string]any, defs map[string]map[string]any, out *vfd.Out) 
 			post = vfrSnap(&regs, gas, outer, add.IntegratedPVMMap)
 			post.Exit = vfrExit(res.ExitReason)
 		}
-		out.Emit(map[string]any{"id": c["id"], "tag": c["tag"], "seq": seq, "call": call, "pre": pre, "post": post})
+		rec := map[string]any{"id": c["id"], "tag": c["tag"], "seq": seq, "call": call, "pre": pre, "post": post}
+		if pre0 != nil { // stores of the OUTER machine: they must change the outer bytes written and nothing else
+			rec["pre0"], rec["set"] = *pre0, op["set"]
+		}
+		out.Emit(rec)
 		if post.Exit != "continue" {
 			return // the outer invocation is over
 		}
@@ -345,7 +355,7 @@ func vfrRunE2E(c map[string]any, out *vfd.Out) {
 		res["m"] = st.M
 		res["used"] = int(min(uint64(r.Gas), 1<<30))
 	}
-	out.Emit(map[string]any{"k": "e2e", "id": c["id"], "tag": c["tag"], "ops": ops, "image": image, "res": res})
+	out.Emit(map[string]any{"k": "e2e", "id": c["id"], "tag": c["tag"], "log": int(logAt), "ops": ops, "image": image, "res": res})
 }
 
 func TestRefine(t *testing.T) {
